@@ -246,6 +246,10 @@ class ContiguousBlockAllocator():
         # // this 'if' prevents an error if a Buffer object is freed twice
         if addr is None:
             return
+        # An address outside this allocator's range is not ours to free
+        # (and a negative list index would reach a block from the end).
+        if not 0 <= addr - self.addr_offset < self.size:
+            return
         block = self._array[addr - self.addr_offset]
         if block is not None and block.used:
             block.used = False
